@@ -90,7 +90,7 @@ man = {
         {'name': 'rule library', 'path': 'rules/', 'serves_properties': sorted(P), 'kind_free_text': 'Python stdlib: CFG (dominators, exact edge guards, path contexts, loops), expression trees, E1 call-graph effects, E2 guards/divisions, E3 container typestate, E4 signed-monomial forms, E7 iterator contract, E8 sibling skeletons, E9 lock order / parallel effects, E10 player tags, E11 determinism lint'},
         {'name': 'fact normalisation', 'path': 'rules/inline.py', 'serves_properties': sorted(P), 'kind_free_text': 'MIR-level normalisation of the fact base before the rules run (rules/inline.py, rules/cfgnorm.py): new private helpers, directly called local closures and closures reached through an impl Fn parameter are inlined into their callers (const generics specialised); Iterator::for_each / fold / try_for_each (and any / all over an integer range) and Option::or_else / unwrap_or_else become the loops / matches they abbreviate; jump threading, Try::branch lowering, def-use web splitting, folding of switches on known values, lowering of calls through a local fn pointer and stores through unique references rewritten into stores to the local reconnect a helper\'s returned flag / Option / Result with the edge it takes; renamed private functions, trait methods and struct fields are aliased back using signatures and body fingerprints; items moved to another module get their reference paths back; structs the reference tree does not have are read as the tuples of their fields (as `[T; 2]` where they stand for one; split into one local per field when they never escape); calls of crate-local trait methods inside a spliced generic helper are resolved to the impl for the type the call site instantiates it with; a private error enum that a From impl maps onto a reference error enum is aliased to it; identity on the reference tree (rules/known_fns.json)'},
         {'name': 'decision tables', 'path': 'rules/absint.py rules/dispatch.py', 'serves_properties': ['C05', 'C08', 'C10', 'C16'], 'kind_free_text': 'path-sensitive abstract interpretation of one function over enum variants / flags / symbolic inputs (dataflow over the MIR CFG, no execution, no solver): which sink is reached under which input combination, independent of how the dispatch is written; used for the parser dispatch of main, the solver dispatch of Game::solve and (as fallback) the regret-matching case split'},
-        {'name': 'patch sets', 'path': 'seeded/ benign/ rules/patchsets.py tools/regress.py', 'serves_properties': sorted(P), 'kind_free_text': '481 breaking changes and 746 behaviour-preserving refactors written by independent sub-agents in eight rounds, replayed on scratch copies in the thorough tier (seeded must still be caught, benign must stay silent)'},
+        {'name': 'patch sets', 'path': 'seeded/ benign/ rules/patchsets.py tools/regress.py', 'serves_properties': sorted(P), 'kind_free_text': '531 breaking changes and 814 behaviour-preserving refactors written by independent sub-agents in nine rounds, replayed on scratch copies in the thorough tier (seeded must still be caught, benign must stay silent)'},
         {'name': 'selftest', 'path': 'rules/selftest.py', 'serves_properties': sorted(P), 'kind_free_text': 'corpus of mutants and benign variants replayed on scratch copies (thorough tier); a failure is CHECKER-SELFTEST (exit 2), never a property violation'},
     ],
     'checks': checks,
